@@ -35,6 +35,21 @@ impl Tier {
 }
 
 // ---------------------------------------------------------------------------------------------
+// Build profile of this binary (set once at start-up by the command line)
+
+static PROFILE_CHK: AtomicBool = AtomicBool::new(false);
+
+pub fn set_profile(name: &str) {
+  PROFILE_CHK.store(name == "chk", Ordering::Relaxed);
+}
+
+/// 1.0 in the build with debug assertions and overflow checks, 0.0 otherwise (used as a fact of
+/// violations that only exist in that build).
+pub fn chk_fact() -> f64 {
+  if PROFILE_CHK.load(Ordering::Relaxed) { 1.0 } else { 0.0 }
+}
+
+// ---------------------------------------------------------------------------------------------
 // Panic capture
 
 thread_local! {
